@@ -3,11 +3,11 @@
 From Coq Require Import List Arith Bool Lia ZArith.
 Import ListNotations.
 From ZV.Conc Require Import Sched SchedLemmas PoolModel PoolLemmas PoolInvDefs PoolInv1 PoolInv2 PoolInv3 PoolInv4 PoolInv5
-     PoolInv6 PoolInv7 PoolInv8 PoolInv9 PoolSafety PoolTheorems.
+     PoolInv6 PoolInv7 PoolInv8 PoolInv9 PoolInv10 PoolSafety PoolTheorems.
 
 Record Live (cfg : config) (s : state) : Prop := mkLive {
   lv_safe : Safe cfg s; lv_workers : WorkersOK s; lv_cur2 : Cur2OK s; lv_exit : ExitOK s; lv_last : LastOK s;
-  lv_main : MainOK cfg s; lv_pop : PopWake s; lv_push : PushWake s }.
+  lv_main : MainOK cfg s; lv_pop : PopWake s; lv_push : PushWake s; lv_free : FreeOK s }.
 
 Lemma live_step cfg tid w s s' : c_fix cfg = true -> Live cfg s -> step cfg tid w s = Some s' -> Live cfg s'.
 Proof.
@@ -20,6 +20,7 @@ Proof.
   - eapply main_step; eauto.
   - eapply popwake_step; eauto.
   - eapply pushwake_step; eauto.
+  - eapply free_step; eauto.
 Qed.
 
 Lemma mk_clients_first K progs : progs <> [] -> exists m, nth_error (mk_clients K 0 progs) 0 = Some m /\ t_worker m = false /\
@@ -53,6 +54,9 @@ Proof.
   - unfold PopWake. cbn. intros _. right. lia.
   - unfold PushWake. intros t x Hx. pose proof (Forall_nth_error _ _ _ _ HI Hx) as (_ & [[_ Hpc]| ->]); [|reflexivity].
     unfold pw_ok. destruct (t_pc x); cbn in *; auto; discriminate.
+  - unfold FreeOK. intros m Hm Hf. exfalso. destruct (mk_clients_first (length progs) progs Hp) as (m0 & Hm0 & _ & Hpc).
+    cbn [st init] in Hm. rewrite nth_error_app1 in Hm by (apply nth_error_Some_lt in Hm0; exact Hm0). rewrite Hm0 in Hm. inversion Hm; subst m0.
+    destruct Hpc as [(k & j & Hq)|[Hq|[(x & Hq)|[(Hq & _)|(Hq & _)]]]]; rewrite Hq in Hf; discriminate.
 Qed.
 
 Theorem live_reachable bodies progs n q sched :
@@ -234,22 +238,20 @@ Theorem deadlock_free bodies progs n q sched :
   progs <> [] -> 1 <= n ->
   let cfg := mkcfg true progs bodies in
   let s := reach true bodies progs n q sched in
-  stuck cfg s = true -> self_blocked s = true.
+  stuck cfg s = true -> self_blocked s = true /\ shutdown (sp s) = false.
 Proof.
-  intros Hp Hn cfg s Hst. destruct (self_blocked s) eqn:Hsb; auto. exfalso.
+  intros Hp Hn cfg s Hst.
   pose proof (live_reachable bodies progs n q sched Hp Hn) as HL. fold s in HL. fold cfg in HL.
   unfold stuck in Hst. apply andb_prop in Hst. destruct Hst as [Hnd Hen]. apply negb_true_iff in Hnd.
   assert (Hen' : enabled_list cfg s = []) by (destruct (enabled_list cfg s); auto; discriminate).
   pose proof (stuck_classes _ _ HL Hen') as Hcl.
-  destruct (blocked_sums _ _ Hcl Hsb) as (Zb & Za & Zs & Zr & Zp).
   pose proof (lv_safe _ _ HL) as HS.
   destruct (sf_shape _ _ HS) as (Hlen & HK & Hlim & HWk & HMo).
-  assert (Hbusy : busy (sp s) = 0) by (rewrite (sf_busy _ _ HS); exact Zb).
   destruct (lv_main _ _ HL) as (m & Hm & Hw & HA & HB & HC & HD & HE & HG).
   assert (Hrole : forall t x, nth_error (st s) t = Some x -> role_ok x = true) by (intros t x Hx; exact (Forall_nth_error _ _ _ _ (sf_role _ _ HS) Hx)).
   destruct (shutdown (sp s)) eqn:Esd.
-  - (* POOL_free is in progress *)
-    symmetry in HA.
+  - (* POOL_free is in progress: never stuck *)
+    exfalso. symmetry in HA.
     destruct (Hcl _ _ Hm) as [Ha|[Ha|[Ha|[(c & Ha & _)|(i & Ha & Hnd')]]]].
     + unfold asleep_push in Ha. destruct (t_pc m); cbn in HA; discriminate.
     + unfold asleep_pop in Ha. destruct (t_pc m); cbn in HA; discriminate.
@@ -268,14 +270,16 @@ Proof.
       specialize (HG ltac:(rewrite Ha; reflexivity)).
       pose proof (Hrole _ _ Hx) as Hr. cbn beta in Hr. unfold role_ok in Hr. rewrite Hxw in Hr.
       destruct (Hcl _ _ Hx) as [Hb|[Hb|[Hb|[(c & Hb & _)|(c & Hb & _)]]]].
-      * unfold asleep_push in Hb. destruct (t_pc x) eqn:Ex; try discriminate.
-        unfold self_blocked in Hsb. assert (existsb (fun th => t_worker th && match t_pc th with PAsleep _ => true | _ => false end) (st s) = true); [|congruence].
-        apply existsb_exists. exists x. split; [eapply nth_error_In; eauto|]. now rewrite Hxw, Ex.
+      * pose proof (lv_free _ _ HL _ Hm ltac:(rewrite Ha; reflexivity)) as Hnp0. apply sumf_zero in Hnp0.
+        pose proof (Forall_nth_error _ _ _ _ Hnp0 Hx) as Hz. unfold npush in Hz. rewrite Hb in Hz. discriminate.
       * apply sumf_zero in HG. pose proof (Forall_nth_error _ _ _ _ HG Hx) as Hz. unfold naslp in Hz. rewrite Hb in Hz. discriminate.
       * congruence.
       * assert (c_K cfg + i = 0) by (apply (HMo _ _ Hx); rewrite Hb; reflexivity). lia.
       * assert (c_K cfg + i = 0) by (apply (HMo _ _ Hx); rewrite Hb; reflexivity). lia.
   - (* no shutdown yet *)
+    split; [|reflexivity]. destruct (self_blocked s) eqn:Hsb; auto. exfalso.
+    destruct (blocked_sums _ _ Hcl Hsb) as (Zb & Za & Zs & Zr & Zp).
+    assert (Hbusy : busy (sp s) = 0) by (rewrite (sf_busy _ _ HS); exact Zb).
     symmetry in HA.
     (* the queue is empty *)
     assert (Hpend : pending (sg s) = []).
